@@ -127,3 +127,11 @@ Example ex_change_then_watch_error :
   st_watch (fst (run o2 init ls)) = [true] /\ st_pc (fst (run o2 init ls)) = PSelect /\
   st_pc (fst (run o2 init (ls ++ [LRun BrWatch; LRun BrWatch]))) = PDone DStopped.
 Proof. vm_compute. auto. Qed.
+
+(* provider level: three URIs on provider 0, an expansion-only provider 1 and an unused provider 2 *)
+Example ex_provider_level :
+  expand (mkTopo 3 2) [AClose 0; AGet 1 true; AProvShutdown true] =
+  [PClose 0 0; PClose 0 1; PClose 0 2; PClose 0 3;
+   PRetrieve 1 0 true; PRetrieve 1 1 true; PRetrieve 1 2 true; PRetrieve 1 3 true;
+   PShutdown 0 true; PShutdown 1 true; PShutdown 2 true].
+Proof. vm_compute. reflexivity. Qed.
